@@ -18,6 +18,7 @@ MUTANTS = [
     M("ppt-fallback-slide-one", X + "ms_legacy/ppt_extractor.py", "slide = PptSlideContent(slide_number=len(content.slides) + 1)", "slide = PptSlideContent(slide_number=1)", "C03-NUM"),
     M("rtf-empty-pages-dropped", X + "ms_legacy/rtf_extractor.py", "            # Keep empty pages too: the position in the list is the page number\n            self.pages.append(page_text)", "            if page_text:\n                self.pages.append(page_text)", "C03-FILT"),
 ]
+MUTANTS.append(M("odp-second-title-in-no-unit", X + "open_office/odp_extractor.py", "                if not found_title and (\n                    \"Title\" in style_name or style_name == \"TitleText\"\n                ):\n                    slide.title = text\n                    found_title = True\n                elif", "                if \"Title\" in style_name or style_name == \"TitleText\":\n                    if not found_title:\n                        slide.title = text\n                        found_title = True\n                elif", "C03-COVER"))
 TWINS = [
     T("join-inlined", D, "    def get_full_text(self) -> str:\n        return _join_unit_text(self.iterate_units())\n\n    def get_metadata(self) -> PdfMetadata:", "    def get_full_text(self) -> str:\n        return (\"\\n\".join(unit.get_text() for unit in self.iterate_units())).strip()\n\n    def get_metadata(self) -> PdfMetadata:"),
     T("enumerate-positional-start", D, "        for page_number, page in enumerate(self.pages, start=1):\n            yield PdfUnit(", "        for page_number, page in enumerate(self.pages, 1):\n            yield PdfUnit("),
